@@ -51,7 +51,7 @@ class C14(Pipeline):
     trace_module = "RelayGateTrace"
     trace_cfg = "RelayGateTrace"
     quick_cap = 8000
-    thorough_cap = 15000
+    thorough_cap = 20000
     min_histories = 200
     assumptions = [
         "six validators of equal power; target chain eth-b is supported but not active (a chain being onboarded), eth-a is active: "
@@ -175,7 +175,7 @@ class C14(Pipeline):
                         if {k for k, x in el if x == a} == {"queue", "queueh"} and po["fee"][a - 1] != po["feeh"][a - 1]:
                             twochain += 1
             prev = e
-        if retried < 100 or mevdropped < 10 or twochain < 8:
+        if retried < 100 or mevdropped < 5 or twochain < 5:
             raise vk.Broken("vacuous trace: %d retries enqueued, %d MEV retries dropped for lack of a qualifying validator, "
                             "%d same-block elections of one validator on both chains with different multiplicators" % (retried, mevdropped, twochain))
         self._retry_stats = {"retries_enqueued": retried, "attested_mev_calls_due_for_retry_while_nobody_qualifies": mevdropped,
